@@ -536,6 +536,16 @@ func (s *Server) ClientCert(c Client) (*tls.Certificate, error) {
 	case "self":
 		der, _ := selfSigned(ck.Pub, ck.Priv, ck.Pkix)
 		return &tls.Certificate{Certificate: [][]byte{der}, PrivateKey: signer}, nil
+	case "selfNoSan":
+		// self-signed with a common name only: no DNS or IP subject alternative names at all
+		tpl := &x509.Certificate{SerialNumber: big.NewInt(time.Now().UnixNano()), Subject: pkix.Name{CommonName: "no-san"}, SubjectKeyId: ck.Pkix,
+			ExtKeyUsage: []x509.ExtKeyUsage{x509.ExtKeyUsageClientAuth}, KeyUsage: x509.KeyUsageDigitalSignature,
+			NotBefore: time.Now().Add(-time.Minute), NotAfter: time.Now().Add(time.Hour)}
+		der, err := x509.CreateCertificate(rand.Reader, tpl, tpl, ck.Pub, ck.Priv)
+		if err != nil {
+			return nil, err
+		}
+		return &tls.Certificate{Certificate: [][]byte{der}, PrivateKey: signer}, nil
 	}
 	return &tls.Certificate{}, nil
 }
